@@ -108,12 +108,12 @@ func TestVX_C05Cold(t *testing.T) {
 	if p := os.Getenv("VX_PART"); p != "" {
 		part = p
 	}
-	r := vx.Begin("C05", part, "each entry point (NewCipher+Encrypt, NewCipher+Decrypt, NewGCM+Seal, NewGCM+Open, NewGCM(16,12)+Seal+Open, the three AEAD constructors followed by Block.Decrypt/Encrypt) as the FIRST use of package sm4 in a fresh process: alone, and by 8 goroutines released together in 8 (thorough 40) fresh processes; on the accelerated and on the portable build; oracles sm4ref / gcmref")
+	r := vx.Begin("C05", part, "each entry point (NewCipher+Encrypt, NewCipher+Decrypt, NewGCM+Seal, NewGCM+Open, NewGCM(16,12)+Seal+Open, the three AEAD constructors followed by Block.Decrypt/Encrypt) as the FIRST use of package sm4 in a fresh process: alone, and by 8 goroutines released together in 30 (thorough 100) fresh processes; on the accelerated and on the portable build; oracles sm4ref / gcmref")
 	defer r.End()
 	selfCheck()
-	procs := 8
+	procs := 30
 	if vx.Thorough() {
-		procs = 40
+		procs = 100
 	}
 	vx.ColdCheck(r, "TestVX_C05Cold", entries, want, 8, procs)
 }
